@@ -4,6 +4,7 @@
 // input v = ctor, arg, kind      ctor: 0 Cube 1 Sphere 2 Cylinder 3 Extrude 4 Revolve 5 LevelSet
 //                                kind: 0 NaN 1 +inf 2 -inf
 #include <cmath>
+#include <sstream>
 #include <unistd.h>
 #include "replay.h"
 #include "manifold/manifold.h"
@@ -130,6 +131,36 @@ static std::string cross_section_args(int c, int kind) {
   for (auto& poly : cs.ToPolygons()) for (auto p : poly) if (!std::isfinite(p.x) || !std::isfinite(p.y)) return "non-empty section with a non-finite coordinate";
   return std::isfinite(cs.Area()) ? "" : "non-finite area";
 }
+// obj_text: v = case   -- malformed OBJ text through Manifold::ReadOBJ (finding 18): must return (no exception, no
+// sanitizer report) a usable mesh or an empty Manifold with an error status
+static std::string obj_text(int c) {
+  static const char* T[] = {
+    "v 0 0 0\nv 1 0 0\nv 0 1 0\nv 0 0 1\nf 1 3 2\nf 1 2 4\nf 1 4 3\nf 2 3 4\n",
+    "v 0 0 0\nv 1 0 0\nv 0 1 0\nv 0 0 1\nf 1 3 2\nf 1 2 4\nf 1 4 3\nf 2 3 99999\n",
+    "v 0 0 0\nv 1 0 0\nv 0 1 0\nv 0 0 1\nf 1 3 2\nf 1 2 4\nf 1 4 3\nf 2 3 0\n",
+    "v 0 0 0\nv 1 0 0\nv 0 1 0\nv 0 0 1\nf 1 3 2\nf 1 2 4\nf 1 4 3\nf -1 -2 -3\n",
+    "v nan nan nan\nv 1 0 0\nv 0 1 0\nv 0 0 1\nf 1 3 2\nf 1 2 4\nf 1 4 3\nf 2 3 4\n",
+    "v 1e999 0 0\nv 1 0 0\nv 0 1 0\nv 0 0 1\nf 1 3 2\nf 1 2 4\nf 1 4 3\nf 2 3 4\n",
+    "v 0 0\nv 1 0 0\nv 0 1 0\nv 0 0 1\nf 1 3 2\nf 1 2 4\nf 1 4 3\nf 2 3 4\n",
+    "f 1 2 3\n",
+    "v 0 0 0\nv 1 0 0\nv 0 1 0\nv 0 0 1\nf 1 3\nf 1 2 4\nf 1 4 3\nf 2 3 4\n",
+    "v 0 0 0\nv 1 0 0\nv 0 1 0\nv 0 0 1\nf 99999999999999999999 3 2\nf 1 2 4\nf 1 4 3\nf 2 3 4\n",
+    "v 0 0 0\nv 1 0 0\nv 0 1 0\nv 0 0 1\nf 1/1/1 3/3/3 2/2/2\nf 1 2 4\nf 1 4 3\nf 2 3 4\n",
+    "# comment only\n", "", "v a b c\nf x y z\n",
+  };
+  if (c < 0 || c >= (int)(sizeof T / sizeof T[0])) return "";
+  std::istringstream in(T[c]);
+  alarm(60);
+  Manifold m = Manifold::ReadOBJ(in);
+  alarm(0);
+  MeshGL64 g = m.GetMeshGL64();
+  const size_t nv = g.NumVert();
+  for (auto i : g.triVerts) if (i >= nv) return "a triangle references vertex " + std::to_string(i) + " of " + std::to_string(nv);
+  for (double v : g.vertProperties) if (!std::isfinite(v)) return "non-finite coordinate";
+  if (m.Status() != Manifold::Error::NoError && !m.IsEmpty()) return "error status but not empty";
+  if (c == 0 && (m.Status() != Manifold::Error::NoError || m.NumTri() != 4)) return "the valid tetrahedron was not read";
+  return "";
+}
 // revolve_angle: v = angle in millidegrees
 static std::string revolve_angle(long md) {
   Polygons sq2 = {{{1, 0}, {2, 0}, {2, 1}, {1, 1}}};
@@ -206,6 +237,15 @@ int main(int argc, char** argv) {
     report_summary(1, "cross_section_args");
     return 0;
   }
+  if (!strcmp(mode, "run") && argc > 2 && !strcmp(argv[2], "obj_text")) {
+    auto in = parse_nums(argc > 3 ? argv[3] : "");
+    while (in.size() < 1) in.push_back(0);
+    report_current("obj_text", in);
+    auto s = obj_text((int)in[0]);
+    if (!s.empty()) { report_fail("obj_text", in, s); return 1; }
+    report_summary(1, "obj_text");
+    return 0;
+  }
   if (!strcmp(mode, "run") && argc > 2 && !strcmp(argv[2], "misc_args")) {
     auto in = parse_nums(argc > 3 ? argv[3] : "");
     while (in.size() < 1) in.push_back(0);
@@ -275,6 +315,13 @@ int main(int argc, char** argv) {
       ++runs;
       if (!s.empty()) { report_fail("cross_section_args", in, s); ++badn; }
     }
+  for (int c = 0; c < 14; ++c) {
+    std::vector<long long> in = {c};
+    report_current("obj_text", in);
+    auto s = obj_text(c);
+    ++runs;
+    if (!s.empty()) { report_fail("obj_text", in, s); ++badn; }
+  }
   for (int c = 0; c < 12; ++c) {
     std::vector<long long> in = {c};
     report_current("misc_args", in);
@@ -298,6 +345,6 @@ int main(int argc, char** argv) {
       ++runs;
       if (!s.empty()) { report_fail("input_nonfinite", in, s); ++badn; }
     }
-  report_summary(runs, "ctor_nonfinite_arg,revolve_angle,degenerate_polygon,cross_section_args,misc_args,refine_args,input_nonfinite");
+  report_summary(runs, "ctor_nonfinite_arg,revolve_angle,degenerate_polygon,cross_section_args,obj_text,misc_args,refine_args,input_nonfinite");
   return badn ? 1 : 0;
 }
